@@ -46,7 +46,7 @@ def fwd_case(draw, max_tasks=8, fixed=True, late_clock=True, balance=None, **kw)
                 elif k == 1:    # started: fixed start at a midnight, end open
                     t['start'] = iso(day(P) + timedelta(days=draw(st.integers(-10, 10))))
     return dict(dir='fwd', spec=spec, res=rs, P=iso(P), N=iso(N), balance=draw(st.booleans()) if balance is None else balance,
-                dflt=draw(st.sampled_from([0, 0, 4])))
+                dflt=draw(st.sampled_from([0, 0, 4])), reuse=draw(st.integers(0, 2)) == 0)
 
 
 @st.composite
@@ -58,7 +58,7 @@ def bwd_case(draw, max_tasks=8, balance=None, **kw):
     E = BASE + timedelta(days=draw(st.integers(30, 40)), hours=draw(st.sampled_from([0, 0, 0, 10, 23])),
                          minutes=draw(st.sampled_from([0, 0, 30])))
     return dict(dir='bwd', spec=spec, res=rs, P=iso(E), N=iso(datetime(2020, 1, 1)), balance=draw(st.booleans()) if balance is None else balance,
-                dflt=draw(st.sampled_from([0, 0, 4])))
+                dflt=draw(st.sampled_from([0, 0, 4])), reuse=draw(st.integers(0, 2)) == 0)
 
 
 def any_case(max_tasks=8, **kw):
@@ -91,9 +91,12 @@ def run(case, wbs=None):
         o.wbs, o.objs, o.ext = specs.build(case['spec'], case.get('wbs_kwargs'))
     else:
         o.wbs, o.objs, o.ext = wbs
-    o.resources_in = specs.make_resources(case['res'])
+    handles = []
+    o.resources_in = specs.make_resources(case['res'], handles)
     o.sched = make_scheduler(case, o.resources_in)
     o.error = None
+    if case.get('reuse'):
+        warm_up(case, o, handles)
     try:
         o.result = o.sched.calc(o.wbs)
     except Exception as e:       # classified by the caller (C14)
@@ -101,6 +104,42 @@ def run(case, wbs=None):
         return o
     extract(o)
     return o
+
+
+def warm_up(case, o, handles):
+    """Object-reuse mode: before the judged run (a) another scheduler object with different calendars for every
+    resource name has been used, and (b) the SAME scheduler and resource objects have already computed a
+    different plan (other estimates, links dropped) while their dated calendars held other values (edited in
+    place and restored afterwards).  Nothing of that may leak into the judged run."""
+    import copy
+    from pjplan import Resource, WeeklyCalendar
+    spec2 = copy.deepcopy(case['spec'])
+    for k, t in enumerate(spec2['tasks']):
+        if t.get('end') is None:
+            t['estimate'] = (t['estimate'] or 0) + 8 + k
+            t['spent'] = None
+    spec2['links'] = spec2['links'][1::2]
+    spec2.pop('ext', None)
+    try:
+        w2, _, _ = specs.build(spec2)
+    except Exception:
+        return
+    odd = [Resource(n, WeeklyCalendar(days=[1, 3, 5], units_per_day=3)) for n in specs.RES_NAMES]
+    try:
+        make_scheduler(case, odd).calc(w2)
+    except Exception:
+        pass
+    saved = []
+    for dc, orig in handles:
+        if orig:
+            dc.set_units({d: (0 if u else 6) for d, u in orig.items()})
+            saved.append((dc, orig))
+    try:
+        o.sched.calc(w2)
+    except Exception:
+        pass
+    for dc, orig in saved:
+        dc.set_units(dict(orig))
 
 
 def extract(o):
@@ -131,11 +170,20 @@ def extract(o):
         o.used_task[(rn, d, tid)] += F(u)
 
 
+def raw_capacity(r, d):
+    """capacity of day d as the resource's CALENDAR gives it (a Resource may only translate None to 0)"""
+    cal = getattr(r, 'calendar', None)
+    if cal is not None:
+        u = cal.get_available_units(d)
+        return 0 if u is None else u
+    return r.get_available_units(d)
+
+
 def cap(o, rn, d):
     r = o.res_by_name.get(rn)
     if r is None:
         return F(0)
-    return F(r.get_available_units(d))
+    return F(raw_capacity(r, d))
 
 
 def complete(o):
@@ -217,7 +265,7 @@ def c03(o, v):
             v('C03:row-on-wrong-resource', dict(task=r.task.id, resource=r.resource.name))
         if d != day(d):
             v('C03:row-date-not-a-day', dict(task=r.task.id, date=d))
-        if not r.resource.get_available_units(d) > 0:
+        if not raw_capacity(r.resource, d) > 0:
             v('C03:row-on-day-without-capacity', dict(task=r.task.id, date=d))
         if o.res_by_name.get(r.resource.name) is not r.resource:
             v('C03:row-resource-not-in-result', dict(resource=r.resource.name))
@@ -249,6 +297,15 @@ def c03(o, v):
         again = rep.rows()
         if [(r.resource.name, r.date, r.task.id, r.units) for r in again] != [(x[0], x[1], x[2], x[3]) for x in o.rows]:
             v('C03:rows()-not-repeatable', None)
+    # the resources the caller supplied are the ones used (same objects), in the result list and in the rows
+    given = {r.name: r for r in o.resources_in}
+    for rn, r in given.items():
+        if o.res_by_name.get(rn) is not r:
+            v('C03:supplied-resource-replaced-in-result', dict(resource=rn))
+    for r in o.raw_rows:
+        if r.resource.name in given and given[r.resource.name] is not r.resource:
+            v('C03:row-booked-on-a-different-resource-object', dict(resource=r.resource.name))
+            break
     # every named resource present; defaults are Mon-Fri 8
     supplied = {specs.res_name(k) for k in c['res']}
     for i in m.order:
@@ -512,7 +569,7 @@ def c09(o, v, facts=None):
 def spec_labels(o):
     """classification of the generated case (measured generator distribution)"""
     m, c = o.m, o.case
-    L = [c['dir'], 'balance' if c['balance'] else 'no-balance']
+    L = [c['dir'], 'balance' if c['balance'] else 'no-balance'] + (['objects-reused'] if c.get('reuse') else [])
     n = len(m.order)
     L.append('tasks:%s' % ('0' if n == 0 else '1-3' if n <= 3 else '4-6' if n <= 6 else '7+'))
     if m.order:
